@@ -665,8 +665,7 @@ impl Mass for Locomotive {
         #[cfg(feature = "logging")]
         log::info!("Updating `force_max` to correspond to new mass.");
         self.force_max = self
-            .mu()
-            .with_context(|| format_dbg!())?
+            .mu
             .with_context(|| format!("{}\nExpected `mu` to be set", format_dbg!()))?
             * self
                 .mass()?
